@@ -229,7 +229,45 @@ func Normalise(fset *token.FileSet, fd *ast.FuncDecl) *normer {
 		ctx = ctxVoidFunc
 	}
 	fd.Body.List = n.block(fd.Body.List, ctx)
+	flattenPos(reflect.ValueOf(fd), fd.Pos())
 	return n
+}
+
+var posType = reflect.TypeOf(token.NoPos)
+
+// flattenPos gives every valid position below v the same value, so that go/printer lays the (rearranged) tree out
+// from its structure alone instead of from the line numbers the pieces once had.
+func flattenPos(v reflect.Value, p token.Pos) {
+	t := v.Type()
+	if t == objType || t == scopeType || t == cgType {
+		return
+	}
+	switch v.Kind() {
+	case reflect.Interface, reflect.Ptr:
+		if !v.IsNil() {
+			flattenPos(v.Elem(), p)
+		}
+	case reflect.Struct:
+		for i := 0; i < v.NumField(); i++ {
+			f := v.Field(i)
+			if f.Type() == posType && f.CanSet() {
+				// a zero position is a flag in these fields (no `...`, no parentheses, no alias, no arrow)
+				switch t.Field(i).Name {
+				case "Ellipsis", "Lparen", "Rparen", "Assign", "Arrow", "Opening", "Closing":
+					if f.Int() == 0 {
+						continue
+					}
+				}
+				f.SetInt(int64(p))
+				continue
+			}
+			flattenPos(f, p)
+		}
+	case reflect.Slice:
+		for i := 0; i < v.Len(); i++ {
+			flattenPos(v.Index(i), p)
+		}
+	}
 }
 
 // ---------------------------------------------------------------- pass 0
@@ -766,8 +804,18 @@ func isNil(e ast.Expr) bool {
 // fold: `if c {return true}; return false` -> `return c`;  `if e != nil {return e}; return nil` -> `return e`
 func (n *normer) fold(out []ast.Stmt) []ast.Stmt {
 	for len(out) >= 2 {
-		is, ok1 := out[len(out)-2].(*ast.IfStmt)
 		ret, ok2 := out[len(out)-1].(*ast.ReturnStmt)
+		// `x := e; return x` (x used nowhere else) -> `return e`
+		if as, ok := out[len(out)-2].(*ast.AssignStmt); ok && ok2 && as.Tok == token.DEFINE && len(as.Lhs) == 1 &&
+			len(as.Rhs) == 1 && len(ret.Results) == 1 {
+			x, okx := as.Lhs[0].(*ast.Ident)
+			r, okr := ret.Results[0].(*ast.Ident)
+			if okx && okr && x.Obj != nil && r.Obj == x.Obj {
+				out = append(out[:len(out)-2], &ast.ReturnStmt{Results: []ast.Expr{as.Rhs[0]}})
+				continue
+			}
+		}
+		is, ok1 := out[len(out)-2].(*ast.IfStmt)
 		if !ok1 || !ok2 || is.Else != nil || is.Init != nil || len(is.Body.List) != 1 || len(ret.Results) != 1 {
 			break
 		}
@@ -775,13 +823,21 @@ func (n *normer) fold(out []ast.Stmt) []ast.Stmt {
 		if !ok || len(in.Results) != 1 {
 			break
 		}
-		if a, okA := boolLit(in.Results[0]); okA {
-			if b, okB := boolLit(ret.Results[0]); okB && a != b && !isArith(is.Cond) {
-				c := is.Cond
-				if !a {
-					c = n.not(c)
+		if a, okA := boolLit(in.Results[0]); okA && !isArith(is.Cond) && !isArith(ret.Results[0]) {
+			c := is.Cond
+			if !a {
+				c = n.not(c)
+			}
+			if b, okB := boolLit(ret.Results[0]); okB {
+				if a != b {
+					out = append(out[:len(out)-2], &ast.ReturnStmt{Results: []ast.Expr{c}})
+					continue
 				}
-				out = append(out[:len(out)-2], &ast.ReturnStmt{Results: []ast.Expr{c}})
+			} else if a { // if c {return true}; return x  ==  return c || x
+				out = append(out[:len(out)-2], &ast.ReturnStmt{Results: []ast.Expr{&ast.BinaryExpr{X: c, Op: token.LOR, Y: ret.Results[0]}}})
+				continue
+			} else { // if c {return false}; return x  ==  return !c && x
+				out = append(out[:len(out)-2], &ast.ReturnStmt{Results: []ast.Expr{&ast.BinaryExpr{X: c, Op: token.LAND, Y: ret.Results[0]}}})
 				continue
 			}
 		}
@@ -798,6 +854,17 @@ func (n *normer) fold(out []ast.Stmt) []ast.Stmt {
 		break
 	}
 	return out
+}
+
+func (n *normer) occurrences(o *ast.Object) int {
+	k := 0
+	ast.Inspect(n.fd.Body, func(x ast.Node) bool {
+		if id, ok := x.(*ast.Ident); ok && id.Obj == o {
+			k++
+		}
+		return true
+	})
+	return k
 }
 
 func bareJump(list []ast.Stmt, ctx int) bool {
@@ -1016,14 +1083,23 @@ func (n *normer) Canon() string {
 			return l
 		})
 	}
-	// alpha-renaming in order of first occurrence
-	num := map[*ast.Object]string{}
+	// range variables which are not used (any more) are blank
+	if fd.Body != nil {
+		ast.Inspect(fd.Body, func(x ast.Node) bool {
+			if rs, ok := x.(*ast.RangeStmt); ok {
+				for _, slot := range []*ast.Expr{&rs.Key, &rs.Value} {
+					if id, ok := (*slot).(*ast.Ident); ok && id.Obj != nil && n.locals[id.Obj] && n.occurrences(id.Obj) == 1 {
+						*slot = ast.NewIdent("_")
+					}
+				}
+			}
+			return true
+		})
+	}
+	// alpha-renaming, step 1: mask every local (decisions below must not depend on names or numbering)
 	ast.Inspect(fd, func(x ast.Node) bool {
 		if id, ok := x.(*ast.Ident); ok && id.Obj != nil && n.locals[id.Obj] {
-			if _, ok := num[id.Obj]; !ok {
-				num[id.Obj] = "L" + strconv.Itoa(len(num)+1)
-			}
-			id.Name = num[id.Obj]
+			id.Name = "L"
 		}
 		return true
 	})
@@ -1039,12 +1115,11 @@ func (n *normer) Canon() string {
 				var ops []ast.Expr
 				flatten(b, b.Op, &ops)
 				sort.SliceStable(ops, func(i, j int) bool { return n.src(ops[i]) < n.src(ops[j]) })
-				r := ops[0]
+				r, prev := ops[0], n.src(ops[0])
 				for _, o := range ops[1:] {
-					if n.src(o) == n.src(r) {
-						continue
+					if t := n.src(o); t != prev {
+						r, prev = &ast.BinaryExpr{X: r, Op: b.Op, Y: o}, t
 					}
-					r = &ast.BinaryExpr{X: r, Op: b.Op, Y: o}
 				}
 				return r
 			case token.EQL, token.NEQ:
@@ -1065,7 +1140,38 @@ func (n *normer) Canon() string {
 			}
 			return true
 		})
+		// `if c {A; return}; B; return` == `if !c {B; return}; A; return`: the smaller condition goes first
+		var orient func(l []ast.Stmt) []ast.Stmt
+		orient = func(l []ast.Stmt) []ast.Stmt {
+			for i, s := range l {
+				is, ok := s.(*ast.IfStmt)
+				if !ok || is.Else != nil || !terminates(is.Body.List) || !terminates(l[i+1:]) || isArith(is.Cond) {
+					continue
+				}
+				if neg := n.not(is.Cond); n.src(neg) < n.src(is.Cond) {
+					rest := append([]ast.Stmt{}, l[i+1:]...)
+					body := is.Body.List
+					is.Cond = neg
+					is.Body = &ast.BlockStmt{List: orient(rest)}
+					return append(append(append([]ast.Stmt{}, l[:i]...), is), orient(body)...)
+				}
+				return append(append([]ast.Stmt{}, l[:i+1]...), orient(l[i+1:])...)
+			}
+			return l
+		}
+		fd.Body.List = mapLists(fd.Body.List, orient)
 	}
+	// alpha-renaming, step 2: number the locals in order of first occurrence
+	num := map[*ast.Object]string{}
+	ast.Inspect(fd, func(x ast.Node) bool {
+		if id, ok := x.(*ast.Ident); ok && id.Obj != nil && n.locals[id.Obj] {
+			if _, ok := num[id.Obj]; !ok {
+				num[id.Obj] = "L" + strconv.Itoa(len(num)+1)
+			}
+			id.Name = num[id.Obj]
+		}
+		return true
+	})
 	fd.Doc = nil
 	return n.src(fd)
 }
